@@ -343,7 +343,7 @@ Fixpoint ws_run (nc nw : nat) (o : wspec) (ops : list hop) (out : list (list Z))
 (* --------------------------------------------------------------- the three hooks *)
 (* which set_enabled_statuses the code in /repo has: false = as found (finding
    C32-enable-no-notify), true = proposed_fixes/C32-enable-no-notify.diff applied *)
-Definition C32_fx : bool := false.
+Definition C32_fx : bool := true.
 
 Definition C32_model_ok (c : C32_case) : bool :=
   match c with
